@@ -98,7 +98,10 @@ pub fn replay(args: &[String]) {
                 };
                 let e = f("mn") * f("vn") / (2.0 * out_sum - f("vn"));
                 let x = es[v.p_idx] as f64;
-                let etol = if v.name == "far" { 3e-2 } else { tol * 4.0 };
+                // conditioning: ESS = m n / tau and tau = -1 + 2 sum(rho) can be close to zero (tau << 1: antithetic chains);
+                // an absolute error in the f32 autocorrelations is magnified by 1 / |tau| = |ESS| / (m n)
+                let kappa = (e / f("mn")).abs().max(1.0);
+                let etol = (if v.name == "far" { 3e-2 } else { tol * 4.0 }) * kappa;
                 if !close(x, e) && (x - e).abs() > etol * e.abs() && ess_bad.len() < 20 {
                     ess_bad.push(json!({"case": brief(), "variant": v.name, "ess": x, "expected": e}));
                 }
